@@ -23,9 +23,9 @@ import gen_c08 as G
 PROP = "C08"
 RULE = ("coarsen_bins: every valid bin table with 1 chromosome of length <=7 and 2 chromosomes of length <=3 (all compositions; length 4: 45 sampled, all in the thorough tier) x k in {2,3,4,5,n+1}; "
         "_greedy_prune_partition: every non-decreasing edge list from 0 of length 2..5 with values <=5 x maxlen 1..6; "
-        "coarsen_cooler: corpus (D1 longer-last-bin tables, chromosomes shorter than k, empty cooler, empty rows at chunk edges, variable tables whose coarsening looks fixed, bin size 1, one-bin chromosomes) x k in {2,3,5,n+1} x chunksize in {1,2,7,nnz+1} (all 16 combinations for the first 7 corpus coolers, 2 chunk sizes per k for the others), "
+        "coarsen_cooler: corpus (D1 longer-last-bin tables, chromosomes shorter than k, empty cooler, empty rows at chunk edges, variable tables whose coarsening looks fixed, bin size 1, one-bin chromosomes) x k in {2,3,5,n+1} x chunksize in {1,2,7,nnz+1} (all 16 combinations for the first 4 corpus coolers, 2 chunk sizes per k for the others), "
         "seeded random coolers (fixed / variable / longer-last / variable-that-coarsens-to-fixed tables, 1-4 chromosomes, symmetric and square storage, 9 pixel patterns) x all four k x two chunk sizes, "
-        "fixed-width tables of EVERY width 1..60 (thorough 1..200) x k in {2,3,5,7} at function level (chunk stream of CoolerCoarsener vs exact integer division) and end to end for widths 7,49,98,103,107,161,187,196 + random widths <= 2000 with >= 3 coarse bins per chromosome; nproc=2 and the CLI on a few, chains k1;k2 vs k1*k2 (fixed and variable tables), merge/coarsen interleavings, a second value column with agg max/min/sum incl. the D20 corpus (columns=[count,w], columns=[w]); "
+        "fixed-width tables of EVERY width 1..60 x k in {2,7} and 1..30 x k in {3,5} (thorough: 1..200 x {2,3,5,7}) at function level (chunk stream of CoolerCoarsener vs exact integer division) and end to end for widths 7,49,98,103,107,161,187,196 + random widths <= 2000 with >= 3 coarse bins per chromosome; nproc=2 and the CLI on a few, chains k1;k2 vs k1*k2 (fixed and variable tables), merge/coarsen interleavings, a second value column with agg max/min/sum incl. the D20 corpus (columns=[count,w], columns=[w]); "
         "every level (copied bases included, k=1) of zoomify_cooler / `cooler zoomify --base-uri` files built from 1, 2 and 3 base coolers in every listing order (bases that are / are not multiples of each other) vs the block aggregation of its own base; fixed parameter scenarios (output URI in a nested group, append into an existing file, same-file in/out, re-run onto an existing group, mode=w, nproc 2/3 with an uneven span count, CLI -p/--append/-a/-o URI, dtypes full/partial dict, lock=, float64 counts, weight bin column on the input, trailing empty rows, CoolerCoarsener batchsize 2/3); non-trivial = nnz>0 and at least 2 old bins; distinct by input hash")
 TRUSTED = ["pandas groupby(sort=True).aggregate('sum') is modelled as the canonical aggregate (Model/Pixels.v) and observed through CoolerCoarsener",
            "create() stores the concatenation of the chunk stream (property C01/C02, observed here through the output cooler)",
@@ -336,7 +336,7 @@ def part_api(ctx):
     inputs = []   # (widths, symmetric, pixels, note, full?)
     for widths, symm, pix, note in CORPUS:
         blocks, pixels = build_case(rng, widths, symm, pix)
-        inputs.append((widths, symm, pixels, note, thorough or len(inputs) < 7))
+        inputs.append((widths, symm, pixels, note, thorough or len(inputs) < 4))
     for i in range(60 if thorough else 12):
         widths, kind = G.random_widths(rng)
         symm = rng.random() < 0.6
@@ -394,7 +394,8 @@ def part_api(ctx):
         if bad:
             ctx.fail(case, bad, None)
         # function level: edges and the chunk stream of the coarsener itself
-        if via == "api" and case["nproc"] == 1:
+        # (a single span cannot split a coarse row: skipped for chunksize > nnz in the quick tier)
+        if via == "api" and case["nproc"] == 1 and (thorough or case["chunksize"] <= len(case["pixels"])):
             st2, r2 = G.guarded(lambda: impl_coarsener(paths[ci], case, 1), 30)
             if st2 != "ok":
                 ctx.compare("CoolerCoarsener", case, st2, "ok")
@@ -435,11 +436,13 @@ def part_widths(ctx):
     # (a) function level: every width 1..60 (thorough: 1..200) x k; exact integer division in the model and the oracle
     wmax = 200 if thorough else 60
     exprs = []
+    def ks_of(w):          # quick tier: k = 2 and 7 for every width, 3 and 5 for the widths up to 30
+        return ks if (thorough or w <= 30) else [2, 7]
     for w in range(1, wmax + 1):
         c0 = width_case(w, 2)
         blocks = blocks_from_widths(c0["widths"])
         exprs.append(f"(let t := {G.coq_bins(G.flat_of(blocks))} in let sz := {C.zl(G.sizes_of(blocks))} in let px := {G.coq_pixels(c0['pixels'])} in "
-                     f"map (fun k => coarsen_pixels t sz px k 1000000 1) {C.zl(ks)})")
+                     f"map (fun k => coarsen_pixels t sz px k 1000000 1) {C.zl(ks_of(w))})")
     model = C.coq_eval(HDR, exprs, tmpdir=ctx.tmp / "widthsv")
     n = 0
     for w, mo in zip(range(1, wmax + 1), model):
@@ -447,7 +450,7 @@ def part_widths(ctx):
         c0 = width_case(w, 2)
         blocks = blocks_from_widths(c0["widths"])
         G.make_cooler(path, blocks, c0["pixels"], True)
-        for k, mpx in zip(ks, mo):
+        for k, mpx in zip(ks_of(w), mo):
             case = width_case(w, k)
             n += 1
             ctx.case(case, nontrivial=True, kind="width-sweep")
@@ -508,7 +511,7 @@ def part_chain(ctx):
     tmpdir = ctx.tmp / "chain"
     tmpdir.mkdir(exist_ok=True)
     specs = [([[10] * 7, [10] * 3 + [4]], True), ([[10] * 6 + [1]], False), ([[3, 7, 3, 7, 4, 6, 2], [5, 1]], True), ([[10, 10, 15]], True)]
-    for _ in range(10 if thorough else 4):
+    for _ in range(10 if thorough else 2):
         widths, kind = G.random_widths(rng, kind=rng.choice(["fixed", "fixed", "variable"]), maxbins=9)
         specs.append((widths, rng.random() < 0.6))
     cases = []
@@ -988,7 +991,7 @@ def part_multires(ctx):
             rng.shuffle(r_)
             cases.append({"fn": "zoomify_cooler (every level)", "symmetric": True, "bases": [base[b] for b in order], "resolutions": r_,
                           "chunksize": rng.choice([1, 7, 1000]), "note": "bases " + ",".join(map(str, order)), "aslist": True})
-    for order in ((15, 10, 20), (20, 15)):
+    for order in (((15, 10, 20), (20, 15)) if thorough else ((15, 10, 20),)):
         cases.append({"fn": "cooler zoomify --base-uri (every level)", "symmetric": True, "bases": [base[b] for b in order],
                       "resolutions": [60, 30] if 10 in order else [40, 45], "chunksize": rng.choice([7, 1000]),
                       "note": "cli bases " + ",".join(map(str, order)), "via": "cli", "aslist": True})
